@@ -11,9 +11,9 @@ import (
 
 	msgv1 "cosmossdk.io/api/cosmos/msg/v1"
 	"cosmossdk.io/math"
-	gogoproto "github.com/cosmos/gogoproto/proto"
 	sdk "github.com/cosmos/cosmos-sdk/types"
 	"github.com/cosmos/cosmos-sdk/x/authz"
+	gogoproto "github.com/cosmos/gogoproto/proto"
 	"google.golang.org/protobuf/proto"
 	"google.golang.org/protobuf/reflect/protoreflect"
 
@@ -111,12 +111,12 @@ var c17Table = map[string]string{
 	"/elys.leveragelp.MsgUpdateStopLoss":             "owner",
 	"/elys.leveragelp.MsgClaimRewards":               "owner",
 
-	"/elys.oracle.MsgFeedPrice":                     "role",
-	"/elys.oracle.MsgFeedMultiplePrices":            "role",
-	"/elys.amm.MsgFeedMultipleExternalLiquidity":    "role",
-	"/elys.amm.MsgCreatePool":                       "role",
-	"/elys.oracle.MsgSetPriceFeeder":                "role",
-	"/elys.oracle.MsgDeletePriceFeeder":             "role",
+	"/elys.oracle.MsgFeedPrice":                  "role",
+	"/elys.oracle.MsgFeedMultiplePrices":         "role",
+	"/elys.amm.MsgFeedMultipleExternalLiquidity": "role",
+	"/elys.amm.MsgCreatePool":                    "role",
+	"/elys.oracle.MsgSetPriceFeeder":             "role",
+	"/elys.oracle.MsgDeletePriceFeeder":          "role",
 
 	"/elys.amm.MsgJoinPool": "self", "/elys.amm.MsgExitPool": "self", "/elys.amm.MsgSwapExactAmountIn": "self", "/elys.amm.MsgSwapExactAmountOut": "self", "/elys.amm.MsgSwapByDenom": "self",
 	"/elys.commitment.MsgCommitClaimedRewards": "self", "/elys.commitment.MsgUncommitTokens": "self", "/elys.commitment.MsgVest": "self", "/elys.commitment.MsgCancelVest": "self", "/elys.commitment.MsgClaimVesting": "self",
